@@ -61,6 +61,7 @@ type thread struct {
 	unlock  context.CancelFunc // OuterCancel unlock / release func
 	inside  bool               // OuterCancel: reader between RLock return and release start
 	enterAt time.Duration
+	firstW  time.Duration // OuterCancel: call time of the first writer that had to wait for this reader
 	toldAt  time.Duration // OuterCancel: when the reader's context was first seen cancelled with the configured cause
 }
 
@@ -89,12 +90,14 @@ type run struct {
 	cm   cmap.Mutex[int]
 	lc   *lock.Context
 
-	oc        *lock.OuterCancel
-	runCancel context.CancelFunc
-	t0        time.Time
-	ticks     int
-	shutdown  bool
-	wCalls    map[int]time.Duration // pending/holding writers: time of their Lock call
+	oc          *lock.OuterCancel
+	runCancel   context.CancelFunc
+	t0          time.Time
+	ticks       int
+	shutdown    bool
+	wCalls      map[int]time.Duration // pending/holding writers: time of their Lock call
+	wPending    int                   // writers that called Lock and were not granted yet
+	lastWUnlock time.Duration         // time of the latest writer unlock call
 
 	hist map[string]int
 }
